@@ -438,7 +438,7 @@ pub fn eval_case(c: &Case, allowed: &features::Allowed, fd: i32) -> Outcome {
             for (who, bytes) in streams {
                 // one signature per root-cause family: operator family (+ encoding version) for evolved
                 // pairs, the control kind for controls that dust-dds wrongly declares assignable
-                let family = c.op.split(':').next().unwrap_or("").to_string();
+                let family = family_of(c, enc, &bytes);
                 let sig = if c.expect_assignable {
                     format!("C39:evolved-sample-not-decoded:{family}:{}", enc.vname())
                 } else {
@@ -484,6 +484,53 @@ pub fn eval_case(c: &Case, allowed: &features::Allowed, fd: i32) -> Outcome {
     o
 }
 
+/// Root-cause family of an evolved pair: the operator family, and for "reader type = writer type +
+/// appended members" whether the first appended member can be (mis)read from the 1..3 padding bytes that
+/// end the writer's sample (a 1-byte element with any padding, a 2-byte element with >= 2 bytes of padding,
+/// an XCDR2 optional flag) — the listed reader finding — or cannot (everything else: the reader must then
+/// run out of data and leave the appended members at their defaults).
+fn family_of(c: &Case, enc: Enc, bytes: &[u8]) -> String {
+    let family = c.op.split(':').next().unwrap_or("").to_string();
+    if c.op != "appendable:reader-has-appended-members" {
+        return family;
+    }
+    let (Ty::Struct(w), Ty::Struct(r)) = (&c.w, &c.r) else { return family };
+    let Some(first) = r.members.get(w.members.len()) else { return family };
+    // padding bytes recorded in the encapsulation options
+    let pad = if bytes.len() >= 4 { (bytes[3] & 3) as usize } else { 3 };
+    fn lead(t: &Ty) -> usize {
+        match t {
+            Ty::Prim(p) => p.size(),
+            Ty::Enum(e) => {
+                if e.bit_bound <= 8 {
+                    1
+                } else if e.bit_bound <= 16 {
+                    2
+                } else {
+                    4
+                }
+            }
+            Ty::Str(_) | Ty::WStr(_) | Ty::Seq(..) => 4,
+            Ty::Array(e, _) => lead(e),
+            Ty::Struct(s) => match s.ext {
+                Ext::Final => s.members.first().map(|m| if m.optional { 1 } else { lead(&m.ty) }).unwrap_or(0),
+                _ => 4,
+            },
+            Ty::Union(u) => match u.ext {
+                Ext::Final => match u.disc {
+                    Prim::I8 | Prim::U8 | Prim::Bool | Prim::Byte | Prim::Char8 => 1,
+                    Prim::I16 | Prim::U16 => 2,
+                    _ => 4,
+                },
+                _ => 4,
+            },
+        }
+    }
+    let l = if first.optional { if enc.ver == Ver::V2 { 1 } else { 4 } } else { lead(&first.ty) };
+    let fits = pad > 0 && (l <= 1 || (l == 2 && pad >= 2));
+    format!("{family}-reader-longer:{}", if fits { "first-appended-member-fits-the-padding" } else { "first-appended-member-beyond-the-padding" })
+}
+
 /// type-only features of the reader type (no value available)
 fn has_feature_type(r: &Ty, enc: Enc, allowed: &features::Allowed) -> bool {
     let dv = default_val(r);
@@ -511,7 +558,7 @@ pub fn on_death(c: &Case, d: &ChildDeath) -> Outcome {
     let _vi = it.next();
     let ei: usize = it.next().and_then(|x| x.parse().ok()).unwrap_or(0);
     let enc = ALL_ENC[ei.min(3)];
-    let family = c.op.split(':').next().unwrap_or("").to_string();
+    let family = family_of(c, enc, &[]);
     o.fail(
         if c.expect_assignable { format!("C39:evolved-sample-not-decoded:{family}:{}", enc.vname()) } else { format!("C39:declared-assignable-but-not-decodable:{}", c.op) },
         format!("evaluator process died ({}) at '{}' while decoding W's sample with R (giant allocation / CPU allowance); W {}; R {}", d.exit, d.marker, describe(&c.w), describe(&c.r)),
